@@ -98,6 +98,8 @@ DEFAULT_MOLS = {
     "h2": ([1, 1], [[0.0, 0.0, 0.0], [0.74, 0.0, 0.1]]),
     "ch4": ([6, 1, 1, 1, 1], [[0.0, 0.0, 0.0], [0.63, 0.63, 0.63], [-0.63, -0.63, 0.63], [-0.63, 0.63, -0.63], [0.63, -0.63, -0.63]]),
     "co": ([8, 6], [[0.0, 0.0, 0.0], [1.13, 0.1, 0.0]]),
+    "oh-": ([8, 1], [[0.0, 0.0, 0.0], [0.96, 0.03, 0.02]]),
+    "nh4+": ([7, 1, 1, 1, 1], [[0.0, 0.0, 0.0], [0.59, 0.59, 0.59], [-0.59, -0.59, 0.59], [-0.59, 0.59, -0.59], [0.59, -0.59, -0.59]]),
 }
 
 
